@@ -389,6 +389,12 @@ func (sweep) Gen(rng *rand.Rand, tier string) []Case {
 				for _, y := range sweepLenMutations(x) {
 					add("len", sweepMask(r, bud.combos), y)
 				}
+				// repeat what follows a plausible fixed header: makes multi-chunk / multi-TLV inputs
+				for _, k := range []int{2, 4, 8, 12, 16, 20} {
+					if k < len(x) && len(x)+len(x)-k <= 65536 {
+						add("dup", sweepMask(r, bud.combos), append(append([]byte(nil), x...), x[k:]...))
+					}
+				}
 				add("tail", sweepMask(r, bud.combos), append(append([]byte(nil), x...), 0xff, 0xff, 0xff, 0xff))
 				add("tail", sweepMask(r, bud.combos), append(append([]byte(nil), x...), make([]byte, 9)...))
 			}
@@ -570,6 +576,9 @@ func sweepKeyOf(line string) string {
 		return line
 	}
 	f := strings.Split(parts[1], ";")
+	if len(f) >= 3 && strings.HasPrefix(f[2], "src=") {
+		return parts[0] + "\t" + f[0] + ";" + f[1] + ";" + f[2]
+	}
 	if len(f) >= 2 {
 		return parts[0] + "\t" + f[0] + ";" + f[1]
 	}
